@@ -373,7 +373,7 @@ fn parent_std_closed(ctx: &mut Ctx, rng: &mut Rng, i: u64) {
     // which of the remaining configurations: everything inherited, or the still-open stream piped
     let third = 3 - a - b;
     let pipe_third = rng.chance(500);
-    let _hole = crate::inspect::PROC_LOCK.lock().unwrap_or_else(|e| e.into_inner());
+    let _hole = crate::inspect::proc_guard();
     let argv = vec![exe.clone().into_os_string()];
     // (the redirection files are opened while all descriptors are still in place, so they get high numbers)
     let config = {
@@ -397,6 +397,8 @@ fn parent_std_closed(ctx: &mut Ctx, rng: &mut Rng, i: u64) {
         libc::syscall(libc::SYS_close, b);
         (sa, sb)
     };
+    // (the lock is for making and unmaking the layout only: the watchdog must be able to look at a launch that hangs)
+    drop(_hole);
     let m = run::monitored(|| Popen::create(&argv, config));
     let evs = m.events();
     let res = m.result;
@@ -412,6 +414,7 @@ fn parent_std_closed(ctx: &mut Ctx, rng: &mut Rng, i: u64) {
     if let Some(mut p) = popen {
         let _ = crate::ilog::quiet(|| p.wait());
     }
+    let _hole = crate::inspect::proc_guard();
     unsafe {
         libc::syscall(libc::SYS_dup3, sa, a, 0);
         libc::syscall(libc::SYS_dup3, sb, b, 0);
